@@ -125,6 +125,25 @@ def run(ctx):
                                 tp = tagpath(W, W.subst_fields(seq[1], ("param", fn.path, 1), hfields))
                                 if tp and tp[1]:
                                     client_acc[tp[1][-1]] = p
+    if len(client_acc) < 2:
+        # the signed bytes may be assembled by a helper: use the resolved verification operands (as C01 does)
+        import importlib
+        c01 = importlib.import_module("rules.C01")
+        S = c01.predicate_closure(ctx, W)
+        for fn in P.fns.values():
+            if fn.impl_self != HANDLER or fn.path in S:
+                continue
+            e = W.ev(fn.path)
+            for bb, t in fn.calls():
+                if any(x in S for x in P.call_targets(t)):
+                    tr = c01.verify_triple(ctx, W, fn.path, bb, S)
+                    if tr is None:
+                        continue
+                    data = c01.expand_data(W, tr[1])
+                    if data and len(data) == 2 and is_call(data[0]):
+                        tp = tagpath(W, W.subst_fields(data[1], ("param", fn.path, 1), hfields))
+                        if tp and tp[1]:
+                            client_acc[tp[1][-1]] = strip_generics(data[0][1])
     for role in ("DELE", "SREP"):
         ctx.check("context-agreement", role, role in client_acc and client_acc.get(role) == server_acc.get(role),
                   "%s context: both sides use %s" % (role, callee_name(server_acc.get(role, "?"))),
@@ -202,7 +221,8 @@ def run(ctx):
                             work.append(p2["l"])
         for b in falses:
             rels = flow.rel_facts_at(IN, b)
-            okf = any(r[0] == "NotPred" and r[1] == "is_some" and values.strip_payload(r[2]) == ("field", ("param", pfn.path, 1), "pub_key") for r in rels)
+            from lib import fact_is_absent
+            okf = fact_is_absent(rels, lambda x: x == ("field", ("param", pfn.path, 1), "pub_key"))
             ctx.check("verified-iff-key", "false-only-without-key", okf, "verified = false only when no key was supplied",
                       "verified can be false although a key was supplied", pfn.loc(b))
         ctx.floor("verified-iff-key", len(falses), 1, "`verified = false` sites")
